@@ -20,7 +20,7 @@ add(
     "property-based testing (Hypothesis) against a list model of paths",
     "Generated segment pairs / order sequences / interface triples are run through paste_paths, "
     "Path.reverse, Path.copy, append/+=, check_interfaces and compared with a plain-list reference "
-    "model; extremes and classification are re-read after a frame of a copy was re-assigned (look, re-assign, look); empty paths; sampled, not exhaustive.",
+    "model; extremes and classification are re-read after a frame of a copy was re-assigned (look, re-assign, look); empty paths; paths that hold more frames than their own limit (as loaded paths may); sampled, not exhaustive.",
     "Frames are System objects as engines/load_path build them; only attribute re-assignment (not in-place "
     "array mutation) is claimed for copy independence, as the statement says.",
 )
@@ -40,7 +40,7 @@ add(
     "inf_retis is compared entry-wise with W_ij*perm(W^ij)/perm(W) from an independent subset-DP permanent (exact integer / rational "
     "arithmetic up to 9x9): exhaustively for all 0/1 staircase matrices, busy subsets and row arrangements up to 4 plus-ensembles "
     "(sampled arrangements for 5-6), and for Hypothesis-generated matrices with integer/real high-acceptance weights up to 11 "
-    "plus-ensembles; metamorphic row rescaling; direct permanent_prob / quick_prob comparisons; Monte-Carlo path (>12) only structurally.",
+    "plus-ensembles, incl. frame counts of very long paths that differ by a few frames; metamorphic row rescaling (factors 2^-30 .. 2^30); direct permanent_prob / quick_prob comparisons; Monte-Carlo path (>12) only structurally.",
     "Minus path in slot 0, ghost row/column zero and busy, symmetric busy slots (maintained by pick/add_traj; checked under C03/C05). "
     "Tolerance 1e-9 absolute on probabilities; unreachable blocks (perm=0) are excluded and counted.",
 )
@@ -51,7 +51,7 @@ add(
     "Distance, Distancevel, Dihedral, Puckering, Velocity, Position are evaluated on generated configurations and on their images under "
     "rigid translation, per-atom box-vector shifts, proper rotations and velocity reversal (directly and through "
     "EngineBase.calculate_order with vel_rev from arrays and from the configuration file); values are also compared with closed forms; "
-    "3- vs 9-component boxes; minimum-image bound; bitwise no-mutation of the system; exactly planar trans / cis dihedrals (180 / 0 degrees). Sampled.",
+    "3- vs 9-component boxes; minimum-image bound; bitwise no-mutation of the system; exactly planar trans / cis dihedrals (180 / 0 degrees); boxes with an unbounded (infinite) axis; periodic pair parameters through calculate_order on a configuration file that carries no box (the phase point's own box applies). Sampled.",
     "Orthogonal boxes; separations within 1e-6 L of exactly L/2 excluded from invariance clauses (rounding tie); collinear "
     "geometries and planar rings avoided by construction.",
 )
@@ -114,7 +114,7 @@ add(
     "The recorder notes seed-sequence identity and initial bit-generator state of the move and engine stream of every ensemble of every job "
     "issued, over up to four process lifetimes with kills (jobs in flight) and clean restarts: pairwise distinct, distinct within a zero swap, "
     "distinct from the scheduler's stream; global numpy/random generators untouched by every move. Differential: another completion order or "
-    "other clean restart points give the same streams to the same job ordinal; another seed shares none. Engine-class part: the noise of TurtleMD's "
+    "other clean restart points give the same streams to the same job ordinal - also a 14-15 ensemble system whose probabilities come from the Monte-Carlo routine vs. the same system with plain shooting; another seed shares none. Engine-class part: the noise of TurtleMD's "
     "Langevin integrator (also with a stray user `seed` setting), of ASE's Langevin and the seed handed to the (fake) LAMMPS binary are functions of the job's "
     "engine stream only: same stream => identical trajectory / seed, different stream => different; the stream reaches the engine as in a real run (a spawned child, pickled on its way to the worker). The job a worker receives is the job that was prepared and submitted (late hand-over). Sampled.",
     "A job in flight at a kill whose result was never consumed is 'the same job' when it is re-issued (recorded) or re-picked (last, unrecorded pick "
@@ -132,7 +132,7 @@ add(
     "(asyncio thread + process pool) with generated task durations (ties), failing tasks, 1-4 workers and consumer lags: every unit executed "
     "exactly once, every result or exception delivered exactly once to its own future, stop() returns - also when everything is submitted at once and "
     "stop() is called with work still queued. (c) real scheduler+aiorunner "
-    "end-to-end vs the deterministic runner: identical files.",
+    "end-to-end vs the deterministic runner: identical files; real multi-worker runs, also pinned to one core (fewer cores than workers): jobs executed by the workers = requested moves, nothing left in the restart record.",
     "The asyncio/process-pool interleaving of aiorunner is driven (durations, lags), not owned: an interleaving-specific lost wake-up could escape. "
     "Pool processes surviving stop() until interpreter exit are reported, not judged.",
 )
@@ -211,7 +211,7 @@ add(
     "property-based testing (Hypothesis) of near-miss configurations against a validity predicate transcribed from the statement; accepted configurations are initialised and run in forks",
     "Valid lattice configurations are mutated in 0-2 fields (interfaces order/duplicates/count, workers, moves length, cap incl. 0.0 and wf-ensemble "
     "interfaces, lambda_-1 incl. 0, engine sections, quantis); invalid by the predicate => setup_config must raise TOMLConfigError (acceptance or any "
-    "other exception is a violation); accepted => with constructed valid start paths setup_internal succeeds, diagonal weights non-zero, all first "
+    "other exception is a violation), also when the same settings arrive as a restart file (a user who edits restart.toml); accepted => with constructed valid start paths setup_internal succeeds, diagonal weights non-zero, all first "
     "picks succeed, the [0-] ensemble is set up for the configured lambda_-1 (any value, 0.0 included), an explicit ensemble_engines layout is what the ensembles "
     "and first picks use, a short run completes, the ensemble definitions do not change when another simulation (other interfaces, lambda_-1 toggled) is set up in the same interpreter, and the restart file is a fixed point of setup_config's normalisation. Sampled.",
     "A configuration valid by the statement may be rejected for reasons the statement does not list. Accepted quantis / lambda_-1 configurations are initialised but not run here (plug-in engine has no energies).",
@@ -222,7 +222,7 @@ add(
     "property-based round-trip testing of PathStorage/load_path (Hypothesis) + model-based history testing of file retention with a deterministic runner",
     "(a) generated paths (multi-file, arbitrary frame order and indices, reversed frames, 1-3 order components on/off the 6-decimal grid, missing "
     "energies, keep_traj_fnames side files) are stored and loaded back: same length, references, directions, orders and energies to six decimals, "
-    "file contents intact under the path's own directory, source object unchanged. (b) " + HIST[0].lower() + HIST[1:] +
+    "file contents intact under the path's own directory, source object unchanged; worker directories on another file system than the load directory. (b) " + HIST[0].lower() + HIST[1:] +
     "After every step: files of all live paths, of the active paths of the restart file on disk and of the input paths of the jobs it lists as in flight exist, no file shared, initial paths "
     "byte-identical, replaced paths deleted only with delete_old and not before the lag.",
     "Distinct basenames within a path (pid+counter prefixes). The asserted lag is one replacement less than the implemented one. Crash windows inside a step belong to C08.",
